@@ -27,6 +27,8 @@ type SProc struct {
 	mainPid string // thread that runs the scripted work (first line of the trace)
 	offset  int    // how much of the trace has been digested
 	MainOps int    // system calls of the stop set completed by the main thread so far
+	Stops   int    // group stops the main thread has reported (one per injected SIGSTOP that took effect)
+	conts   int    // SIGCONTs sent
 	cmd     *exec.Cmd
 	trace   string
 	pid     int // tracee
@@ -111,6 +113,10 @@ func (p *SProc) digest() {
 		if f[0] != p.mainPid || strings.HasSuffix(line, "<unfinished ...>") {
 			continue
 		}
+		if strings.Contains(line, "--- stopped by SIGSTOP ---") {
+			p.Stops++
+			continue
+		}
 		name := f[1]
 		if name == "<..." && len(f) > 2 {
 			name = f[2]
@@ -158,67 +164,57 @@ func (p *SProc) state() byte {
 	return b[i+2]
 }
 
-// traceSize is the number of injected stops the process has gone through so far: strace logs
-// "--- stopped by SIGSTOP ---" after the system call that triggered the injection has completed
-// (the stop signal is delivered on return to user space), and flushes its log line by line.
-func (p *SProc) traceSize() int64 {
-	b, err := os.ReadFile(p.trace)
-	if err != nil {
-		return 0
-	}
-	return int64(bytes.Count(b, []byte("--- stopped by SIGSTOP ---")))
-}
-
-// waitStop waits until the process has made progress beyond trace size `from` and is stopped again, or has exited.
-func (p *SProc) waitStop(from int64) error {
-	deadline := time.Now().Add(20 * time.Second)
-	stable := 0
+// waitStop waits until the process has reported a group stop that has not been answered by a SIGCONT
+// yet, or has exited. Every thread takes part in every group stop and strace logs
+// "<tid> --- stopped by SIGSTOP ---" for each of them AFTER the line of the system call that
+// triggered the injection; the lines of the main thread therefore count the stops exactly, and
+// nothing depends on how fast strace or the tracee get scheduled: a SIGCONT is only ever sent in
+// answer to a logged stop (a SIGCONT sent early would discard the pending SIGSTOP and let the
+// process run one operation too far).
+func (p *SProc) waitStop(_ int64) error {
+	deadline := time.Now().Add(120 * time.Second)
 	for time.Now().Before(deadline) {
+		p.digest()
+		if p.Stops > p.conts {
+			return nil
+		}
 		select {
 		case <-p.waitErr:
 			p.done = true
+			p.digest()
 			return nil
 		default:
 		}
-		s := p.state()
-		if s == 0 {
-			// not readable (yet / any more): the strace process tells us when the tracee is really gone
-			time.Sleep(200 * time.Microsecond)
-			continue
-		}
-		if s == 'Z' || s == 'X' {
+		if s := p.state(); s == 'Z' || s == 'X' {
 			// exited: wait for strace to finish
 			select {
 			case <-p.waitErr:
-			case <-time.After(5 * time.Second):
+			case <-time.After(10 * time.Second):
 			}
 			p.done = true
+			p.digest()
 			return nil
-		}
-		if (s == 't' || s == 'T') && p.traceSize() > from {
-			stable++
-			if stable >= 3 {
-				return nil
-			}
-		} else {
-			stable = 0
 		}
 		time.Sleep(200 * time.Microsecond)
 	}
 	return fmt.Errorf("process did not stop")
 }
 
-// Step lets the process perform the file operation it is stopped at and run to its next stop.
+// Step answers the current stop: the process runs to its next stop (or exits).
 func (p *SProc) Step() error {
 	if p.done {
 		return nil
 	}
-	from := p.traceSize()
+	if p.Stops <= p.conts {
+		// nothing to answer yet
+		return p.waitStop(0)
+	}
+	p.conts++
 	err := syscall.Kill(p.pid, syscall.SIGCONT)
 	if os.Getenv("VERIF_DEBUG") != "" {
-		fmt.Fprintf(os.Stderr, "step pid=%d state=%c from=%d killerr=%v\n", p.pid, p.state(), from, err)
+		fmt.Fprintf(os.Stderr, "step pid=%d state=%c stops=%d conts=%d killerr=%v\n", p.pid, p.state(), p.Stops, p.conts, err)
 	}
-	return p.waitStop(from)
+	return p.waitStop(0)
 }
 
 // Finish runs the process to completion.
